@@ -314,6 +314,47 @@ class Ref:
                 for k in saved:
                     c[k] = loc[k]
                 c[b] = orig
+        elif b == 'switch':
+            cases = c.get('switch')
+            if not isinstance(cases, list) or not cases:
+                raise Unsupported('switch config')
+            chosen = None
+            for idx, case in enumerate(cases):
+                if not isinstance(case, dict):
+                    raise Unsupported('switch case')
+                if idx == len(cases) - 1 and case.get('default') is not None:
+                    chosen = case['default']
+                    break
+                if 'case' not in case or not case.get('call'):
+                    raise Unsupported('switch case shape')
+                if self.truth(case['case']):
+                    chosen = case['call']
+                    break
+            if chosen is not None:
+                cfg = self.fmt(chosen)
+                if isinstance(cfg, str):
+                    groups, su, fa = [cfg], None, None
+                elif isinstance(cfg, list):
+                    groups, su, fa = list(cfg), None, None
+                elif isinstance(cfg, dict) and cfg.get('groups'):
+                    g = cfg['groups']
+                    groups = [g] if isinstance(g, str) else list(g)
+                    su, fa = cfg.get('success'), cfg.get('failure')
+                else:
+                    raise Unsupported('switch call')
+                if not all(isinstance(g, str) for g in groups):
+                    raise Unsupported('switch groups')
+                saved = {k: c[k] for k in ('i', 'whileCounter', 'retryCounter') if k in loc}
+                orig = c['switch']
+                try:
+                    self.run_groups(groups, su, fa)
+                except StepError as e:
+                    e.recorded = True
+                    raise
+                finally:
+                    for k in saved:
+                        c[k] = loc[k]
+                    c['switch'] = orig
         elif b == 'set':
             if c.get('set') is None:
                 raise Unsupported('set')
@@ -514,7 +555,7 @@ def prepare(case):
             out = []
             for st in steps or []:
                 d = {'body': st['body'], 'module': engine.BODIES[st['body']][0]}
-                if st['body'] == 'switch' or st.get('simple'):
+                if st.get('simple'):
                     out.append(d)
                     continue
                 if st.get('in') is not None:
